@@ -201,6 +201,19 @@ pub(crate) struct TimerWheel {
     counter: u32,
 }
 
+#[cfg(calloop_verif)]
+impl TimerWheel {
+    pub(crate) fn verif_entries(&self) -> (Vec<(u32, usize)>, u32) {
+        let mut v: Vec<(u32, usize)> = self
+            .heap
+            .iter()
+            .map(|data| (data.counter, crate::verif::token_key(&data.token)))
+            .collect();
+        v.sort_unstable();
+        (v, self.counter)
+    }
+}
+
 impl TimerWheel {
     pub(crate) fn new() -> TimerWheel {
         TimerWheel {
